@@ -42,7 +42,7 @@ def cases(tier, rng):
             if (w + s) % 2 == 0 or tier != 'quick':
                 yield {'kind': 'mux', 'term': [['roll', 4, 3, [['roll', w, s, [['to_list']]]]]], 'items': list(range(n))}
                 yield {'kind': 'mux', 'term': [['split', ['floordiv', 5], [['roll', w, s, [['count', True]]]]]], 'items': list(range(n))}
-    nrand = {'quick': 150, 'thorough': 3000, 'search': 300}[tier]
+    nrand = {'quick': 450, 'thorough': 3000, 'search': 300}[tier]
     for _ in range(nrand):
         r = rng.random()
         if r < 0.4:
